@@ -13,18 +13,14 @@
       every register state: `process_element_descriptor` (with 201/202/203/204/207/208 in force and
       the QA-link machine) and `process_bitmap_definition` (with `define_bitmap`).
 
-  NOT proved (kept as statements; checked by the correspondence + oracle of harness/props/c08.py):
-
-      C08_exec_compile_eq_walk (full):
-        ∀ P, Frame P → ∀ t prog, scopeClosed t = true → compile t = .ok prog →
-          ∀ s, s.regs = {} → Sim c' (walkList P t s) (exec P prog s)
-        i.e. the composition of the local steps over the prelude of `process_members` (221 / 203 / 206),
-        the operators, sequences and the two replication loops (where `scopeClosed` is used).
-        What is missing is that composition (`pre_sim` and the mutual induction over `Desc`); the local
-        steps below, `walk1_eq` / `compile1_eq` (both sides as prelude + dispatch) and the sequencing
-        lemmas `sim_bind` / `execList_append` are in place.
-
-      C08_load_dump:  WFProg T c → load T (dump c) = .ok c.
+  The whole-template statements are proved in `Props/C08Walk.lean`:
+    * `C08_exec_compile_eq_walk` (FULL, the whole class `scopeClosed`, every primitive set with the frame law),
+      staged as `..._stageA` (operator-free: no scope hypothesis needed), `..._stageB`, `..._stageC` (general form
+      from any related register states, with the register relation afterwards);
+    * `C08_decodeDataC_eq`, `C08_encodeDataC_eq` (data-section level, uncompressed and compressed);
+    * `C08_load_dump` (`WFList T c → load T (dump c) = .ok c`), `C08_compile_wf`, `C08_load_dump_compile`,
+      `C08_decodeData_reload`, `C08_encodeData_reload`.
+  The `_partial` theorems below are the local steps those proofs are composed of.
 -/
 import BufrModel.Lemmas.CompilerCache
 import BufrModel.Lemmas.CompilerSim
